@@ -8,10 +8,18 @@ WS == IF Quick THEN {<<32>>, <<10>>, <<32, 10, 9>>, <<13, 10>>, <<9, 13>>}
 B == BOOLEAN
 F(k, b, l, r) == [k |-> k, b |-> b, l |-> l, r |-> r]
 
+\* what a comment tag can have inside: nothing of it is interpreted, and the first {% endcomment %} closes it
+CBodyZ == <<123,123,32,122,32,125,125>>                                   \* {{ z }}
+CBodies == {<<123,37,32,99,111,109,109,101,110,116,32,37,125>>,                  \* {% comment %}   (a comment tag does not nest)
+            <<123,37,32,105,102,32,49,32,37,125>>,                                \* {% if 1 %}
+            <<123,37,32,101,110,100,105,102,32,37,125,120>>,                                 \* {% endif %}x
+            <<123,37,32,110,111,115,117,99,104,116,97,103,32,49,32,43,32,37,125>>,                           \* {% nosuchtag 1 + %}
+            <<123,123,32,49,32,43,32,125,125,123,37,32,101,108,115,101,32,37,125>>}                           \* {{ 1 + }}{% else %}
+CBodiesQ == {b \in CBodies : Len(b) \in {12, 13}}      \* (quick) the nested comment tag and the stray endif
 TextFrags == {F("ws", w, FALSE, FALSE) : w \in WS} \cup {F("text", <<97>>, FALSE, FALSE), F("text", <<97, 32, 98>>, FALSE, FALSE)}
 DB == IF Layout THEN B ELSE {FALSE}
 Constructs == {F(k, <<>>, l, r) : k \in {"var", "set", "ifopen", "ifclose"}, l \in DB, r \in DB}
-          \cup {F("ttag", <<>>, FALSE, FALSE), F("ctag", <<>>, FALSE, FALSE)} \cup (IF Layout THEN {F("ctag", <<>>, FALSE, TRUE)} ELSE {})
+          \cup {F("ttag", <<>>, FALSE, FALSE), F("ctag", CBodyZ, FALSE, FALSE)} \cup (IF Layout THEN {F("ctag", CBodyZ, FALSE, TRUE)} ELSE {F("ctag", cb, FALSE, FALSE) : cb \in (IF Quick THEN CBodiesQ ELSE CBodies)})
 Inert == {F("comment", <<>>, FALSE, FALSE), F("verb", <<32, 123, 123, 32, 120, 10>>, FALSE, FALSE), F("verb", <<>>, FALSE, FALSE)}
 AllFrags == TextFrags \cup Constructs \cup Inert
 
